@@ -12,7 +12,12 @@ CONSTANTS MaxN1, MaxN2, MaxCap
 VARIABLES pt, done
 cvars == << pt, done >>
 
-Grid == [n1 : 0 .. MaxN1, n2 : 0 .. MaxN2, cp : 0 .. MaxCap, cv : 0 .. MaxCap]
+\* st: how the gates come about - "full": every gate by allocate_multiplier; "h1" / "h2": the last gate of the first / second phase
+\* is a single allocation left half open (it counts as a gate all the same: the threshold speaks of the gate count only)
+Grid == {g \in [n1 : 0 .. MaxN1, n2 : 0 .. MaxN2, cp : 0 .. MaxCap, cv : 0 .. MaxCap, st : {"full", "h1", "h2"}] :
+           /\ g.st = "h1" => g.n1 >= 1
+           /\ g.st = "h2" => g.n2 >= 1
+           /\ g.st # "full" => g.cv = 0 \/ g.cp = 0}       \* (half-open shapes: the prover's and the verifier's axis separately)
 
 CInit == pt \in Grid /\ done = FALSE
 CNext == ~done /\ done' = TRUE /\ UNCHANGED pt
@@ -33,12 +38,14 @@ ThresholdExact ==
      /\ thr = Pad2(n) /\ (n = 0 => thr = 1)
 
 Mulop == [op |-> "allocmul", l |-> 2, r |-> 3]
+Half == [op |-> "alloc", a |-> 4]
+GatesOf(n, half) == [i \in 1 .. n |-> IF half /\ i = n THEN Half ELSE Mulop]
 Behaviour(g) ==
   [p |-> [label |-> "verif",
-          ops |-> [i \in 1 .. g.n1 |-> Mulop] \o (IF g.n2 > 0 THEN << [op |-> "defer", cb |-> 0] >> ELSE << >>),
-          cbs |-> IF g.n2 > 0 THEN << [i \in 1 .. g.n2 |-> Mulop] >> ELSE << >>,
+          ops |-> GatesOf(g.n1, g.st = "h1") \o (IF g.n2 > 0 THEN << [op |-> "defer", cb |-> 0] >> ELSE << >>),
+          cbs |-> IF g.n2 > 0 THEN << GatesOf(g.n2, g.st = "h2") >> ELSE << >>,
           cap |-> g.cp],
-   vcap |-> g.cv, pad |-> Pad2(g.n1 + g.n2), n1 |-> g.n1, n2 |-> g.n2,
+   vcap |-> g.cv, pad |-> Pad2(g.n1 + g.n2), n1 |-> g.n1, n2 |-> g.n2, st |-> g.st,
    expect_p |-> ExpectP(g), expect_v |-> ExpectV(g)]
 
 Emit == done => PrintT(<< "BEHAVIOUR", ToJson(Behaviour(pt)) >>)
